@@ -306,7 +306,7 @@ func (r *rig) judgeTable(p string, o *observed) (out []anomaly, checked bool) {
 	cs := r.cs
 	stored := r.stored()
 	exact := stored != "" && stored == p
-	foreign := cs.Target != "own"
+	foreign := cs.Target != "own" && cs.Target != "shared"
 	deep := cs.Depth != "0"
 	lvl := cs.Level
 	if lvl > 5 {
@@ -469,7 +469,11 @@ func (r *rig) judgeTable(p string, o *observed) (out []anomaly, checked bool) {
 			if !foreign && hasOp(o.calls, "QueryObj") {
 				// The double answers both spellings of the collection path.
 				v := viewMS(o)
-				for _, ob := range r.objs[r.colls[0]] {
+				coll := r.colls[0]
+				if cs.Target == "shared" {
+					coll = r.colls[len(cs.Layout.Colls)]
+				}
+				for _, ob := range r.objs[coll] {
 					v.requireHref(ob, "object", &out)
 				}
 			}
@@ -571,6 +575,9 @@ func runReq(c *fw.Ctx, r *rig, ip *doubles.InProc, other *rig, journal bool) {
 	if cs.Spelling != "" {
 		form += ",respelled-target"
 	}
+	if cs.Odd != "" {
+		form += ",odd-path"
+	}
 	if r.session != nil {
 		form += ",multi-user"
 	}
@@ -601,6 +608,10 @@ func runReq(c *fw.Ctx, r *rig, ip *doubles.InProc, other *rig, journal bool) {
 		return
 	}
 	o := &observed{status: resp.StatusCode, hdr: resp.Header, body: ex[0].RespBody, calls: r.calls()}
+	if cs.Odd != "" {
+		r.reportOdd(c, p, target, o, lv, form)
+		return
+	}
 	anoms, checked := r.judge(p, o)
 	if other != nil {
 		if l := other.exposureTo(o, p); len(l) > 0 {
@@ -609,11 +620,11 @@ func runReq(c *fw.Ctx, r *rig, ip *doubles.InProc, other *rig, journal bool) {
 	}
 
 	rel := cs.Target
-	if cs.Target == "own" && cs.Level >= 1 && cs.Level <= 4 {
+	if (cs.Target == "own" || cs.Target == "shared") && cs.Level >= 1 && cs.Level <= 4 {
 		if r.stored() == p {
-			rel = "own-exact"
+			rel = cs.Target + "-exact"
 		} else {
-			rel = "own-other-slash"
+			rel = cs.Target + "-other-slash"
 		}
 	}
 	cell := fmt.Sprintf("%s|%s|%s", cs.Server, cs.Method, lv)
@@ -686,4 +697,161 @@ func (r *rig) witness(p string, o *observed) map[string]interface{} {
 		w["body_head"] = fmt.Sprintf("%q", b)
 	}
 	return w
+}
+
+// ---- requests whose path is not spelt canonically -------------------------
+//
+// "Depth below the prefix" has two readings for a path with empty, "." or
+// ".." segments: the depth of the cleaned path (cleanLevel; what the library
+// does today) and the depth of the literal path (rawLevel; a server may take
+// every piece for a segment, or find that the path does not start with the
+// prefix at all). The statement does not choose, so a behaviour is accepted
+// when EITHER reading allows it, and only what BOTH readings exclude is
+// reported:
+//
+//   - the backend is asked to create a collection although the path is at
+//     collection depth under neither reading (MKCOL there: 403, no mutation);
+//   - a mutation that belongs to neither reading's level (rows of the table
+//     that are judged for canonical paths: MKCOL, CardDAV DELETE, method tokens
+//     outside the table, PROPFIND = none at all);
+//   - a path argument that is not byte-identical to the request path;
+//   - a PROPFIND at principal / home-set depth of a foreign name (cleaned
+//     reading) that is below the prefix in the literal reading too, or below
+//     object depth under both readings, showing resources of the user.
+//
+// Required lookups, hrefs and statuses of the table are NOT demanded here.
+func (r *rig) judgeOdd(p string, o *observed, a, b int) (out []anomaly) {
+	cs := r.cs
+	m := cs.Method
+	if m == "COPY" || m == "MOVE" {
+		return nil
+	}
+	if a > 5 {
+		a = 5
+	}
+	if b > 5 {
+		b = 5
+	}
+	collOK := a == 3 || b == 3
+	objOK := a == 4 || b == 4
+	created := hasOp(o.calls, "CreateColl")
+	if m == "MKCOL" {
+		if !collOK {
+			onlyMutation(o.calls, "", "", &out)
+			if o.status != 403 {
+				out = append(out, anomaly{fmt.Sprintf("status-%d-not-403", o.status), fmt.Sprintf("MKCOL outside collection level answered %d, want 403", o.status)})
+			}
+			return out
+		}
+		onlyMutation(o.calls, "CreateColl", p, &out)
+		if created && o.status/100 != 2 {
+			out = append(out, anomaly{"create-not-accepted", fmt.Sprintf("MKCOL answered %d although the backend accepted", o.status)})
+		}
+		if !created && o.status != 403 {
+			out = append(out, anomaly{fmt.Sprintf("status-%d-neither-created-nor-403", o.status), fmt.Sprintf("MKCOL answered %d without asking the backend to create", o.status)})
+		}
+		return out
+	}
+	for _, c := range o.calls {
+		if c.Op != "CreateColl" {
+			continue
+		}
+		if !collOK {
+			out = append(out, anomaly{"create-outside-collection-level", fmt.Sprintf("%s made the backend create a collection at %q, which is not at collection depth (status %d)", m, c.Path, o.status)})
+		} else if c.Path != p {
+			out = append(out, anomaly{"path-altered:CreateColl", fmt.Sprintf("%s made the backend create %q, request path is %q", m, c.Path, p)})
+		}
+	}
+	mutations := func() {
+		below := strings.TrimSuffix(p, "/") + "/"
+		for _, c := range o.calls {
+			if !c.Raw.Mutating() || c.Op == "CreateColl" {
+				continue
+			}
+			ok := false
+			switch c.Op {
+			case "PutObj":
+				ok = (objOK && c.Path == p) || (collOK && strings.HasPrefix(c.Path, below))
+			case "DeleteObj":
+				ok = objOK && c.Path == p
+			case "DeleteColl":
+				ok = collOK && c.Path == p
+			}
+			if !ok {
+				out = append(out, anomaly{"unexpected-mutation:" + c.Op, fmt.Sprintf("%s made the backend run %s(%q) for a request to %q (status %d)", m, c.Op, c.Path, p, o.status)})
+			}
+		}
+	}
+	switch {
+	case m == "PROPFIND":
+		onlyMutation(o.calls, "", "", &out)
+		for _, c := range o.calls {
+			if (c.Op == "GetColl" || c.Op == "GetObj") && c.Path != p {
+				out = append(out, anomaly{"path-altered:" + c.Op, fmt.Sprintf("%s was invoked with %q, request path is %q", c.Op, c.Path, p)})
+			}
+		}
+		foreign := cs.Target != "own" && cs.Target != "shared"
+		switch {
+		case foreign && (a == 1 || a == 2) && b >= 1:
+			if l := r.exposure(o); len(l) > 0 {
+				kind := "foreign-principal-exposes"
+				if a == 2 {
+					kind = "foreign-home-set-exposes"
+				}
+				out = append(out, anomaly{kind, fmt.Sprintf("response to a foreign path shows %q", l)})
+			}
+		case a >= 5 && b >= 5:
+			if l := r.exposure(o); len(l) > 0 {
+				out = append(out, anomaly{"deeper-level-exposes", fmt.Sprintf("response to a path below object level shows %q", l)})
+			}
+		}
+	case m == "DELETE" && cs.Server == "carddav":
+		mutations()
+		if !collOK && !objOK && o.status/100 == 2 {
+			out = append(out, anomaly{"delete-not-refused", fmt.Sprintf("DELETE outside address book / object level answered %d", o.status)})
+		}
+	case !tableMethods[m]:
+		mutations()
+	}
+	return out
+}
+
+func (r *rig) reportOdd(c *fw.Ctx, p, target string, o *observed, lv, form string) {
+	cs := r.cs
+	a, b := cleanLevel(p, cs.Prefix), rawLevel(p, cs.prefixPath())
+	if a != cs.Level {
+		c.Inconclusive(fmt.Sprintf("C12: odd spelling %q cleans to level %d, intended %d", p, a, cs.Level))
+		return
+	}
+	if b == a {
+		c.Inconclusive(fmt.Sprintf("C12: odd spelling %q is canonical", p))
+		return
+	}
+	where := "below the prefix"
+	switch {
+	case cs.OddAt < len(cs.Prefix):
+		where = "inside the prefix part"
+	case cs.OddAt == len(cs.Prefix):
+		where = "between prefix and first segment"
+	case cs.OddAt >= len(cs.Prefix)+cs.Level:
+		where = "after the last segment"
+	}
+	raw := fmt.Sprintf("R%d", b)
+	if b < 0 {
+		raw = "R-outside"
+	} else if b > 5 {
+		raw = "R5+"
+	}
+	c.Observe("odd_path_requests(judged)", fmt.Sprintf("%s|%s|%s|%s", cs.Server, cs.Method, cs.Odd, where), 1)
+	c.Observe("odd_path_levels(cleaned reading|literal reading)", fmt.Sprintf("%s|%s|%s", cs.Method, lv, raw), 1)
+	c.Observe("odd_path_status", fmt.Sprintf("%s|%s|%s|%s|%d", cs.Server, cs.Method, lv, raw, o.status), 1)
+	c.Observe("odd_path_backend_ops", fmt.Sprintf("%s|%s|%s|%s|%s", cs.Server, cs.Method, lv, raw, opSig(o.calls)), 1)
+	c.Distinct(fmt.Sprintf("odd|%s|%s|%s|%s|%s|%s|%d|%s|%v|p%d|%v|%s|%s", cs.Server, cs.Method, cs.Form, cs.Depth, lv, cs.Target, cs.OddAt, cs.Odd, cs.Slash, len(cs.Prefix), cs.PrefixSlash, nameClass(p), cs.Shape))
+	for _, an := range r.judgeOdd(p, o, a, b) {
+		w := r.witness(p, o)
+		w["request_target"] = target
+		w["level_cleaned_reading"] = a
+		w["level_literal_reading"] = b
+		c.Report(fmt.Sprintf("%s|%s|%s|%s", cs.Server, lv, form, an.kind), an.what, w)
+	}
 }
